@@ -93,7 +93,61 @@ func isQuantified(t *Term) bool {
 
 // relevantHyps drops quantified hypotheses that are not connected to the goal
 // through shared array symbols (dropping hypotheses is always sound).
+// scalarLike: two-level families that are only ever read at index 0 of some object (fields of
+// pointed-to structs such as m.Length): they behave like scalars and must not connect hypotheses.
+func scalarLike(terms []*Term) map[string]bool {
+	indexed := map[string]bool{}
+	all := map[string]bool{}
+	var rec func(t *Term, parentSel *Term)
+	rec = func(t *Term, parent *Term) {
+		if t.Op == "sym" && strings.HasPrefix(t.Sort, "(Array Int (Array") {
+			all[t.Name] = true
+			// fine only in the shape select(select(F, r), 0)
+			ok := false
+			if parent != nil && parent.Op == "select" && parent.Args[0] == t {
+				ok = true // inner select; the outer index is checked when visiting the outer select
+			}
+			if !ok {
+				indexed[t.Name] = true
+			}
+			return
+		}
+		if t.Op == "select" && t.Args[0].Op == "select" && t.Args[0].Args[0].Op == "sym" {
+			f := t.Args[0].Args[0]
+			if strings.HasPrefix(f.Sort, "(Array Int (Array") {
+				if !(t.Args[1].IsInt() && t.Args[1].Val.Sign() == 0) {
+					indexed[f.Name] = true
+				}
+			}
+		}
+		for _, a := range t.Args {
+			rec(a, t)
+		}
+		for _, p := range t.Pats {
+			rec(p, t)
+		}
+	}
+	for _, t := range terms {
+		rec(t, nil)
+	}
+	out := map[string]bool{}
+	for f := range all {
+		if !indexed[f] {
+			out[f] = true
+		}
+	}
+	return out
+}
+
 func relevantHyps(hyps []*Term, goal *Term) []*Term {
+	skip := scalarLike(append(append([]*Term(nil), hyps...), goal))
+	arraySyms := func(t *Term) map[string]bool {
+		m := arraySyms(t)
+		for k := range skip {
+			delete(m, k)
+		}
+		return m
+	}
 	S := arraySyms(goal)
 	type hinfo struct {
 		arrs  map[string]bool
